@@ -75,6 +75,12 @@ WORKSPACES["WH_same_attributes"] = {
     "hb.f90": "module hbm\n  implicit none\ncontains\n  subroutine hsb(hfac, hn)\n    real, optional :: hfac\n    integer, optional :: hn\n    external hn\n    if (present(hfac)) hfac = 1.0\n  end subroutine hsb\nend module hbm\n",
     "hu.f90": "program hu\n  use ham\n  use hbm\n  implicit none\n  call hsb(hfac=2.0)\n  call hsa(hg=3)\nend program hu\n",
 }
+# a type in a sub-submodule extends a type of the ancestor module; the intermediate submodule lives in another file
+WORKSPACES["WI_subsubmodule_inherit"] = {
+    "im.f90": "module imod\n  implicit none\n  type :: ibase\n    integer :: ig\n  end type ibase\n  interface\n    module subroutine irun(n)\n      integer :: n\n    end subroutine irun\n  end interface\nend module imod\n",
+    "is1.f90": "submodule (imod) is1\n  implicit none\n  integer :: ihidden\nend submodule is1\n",
+    "is2.f90": "submodule (imod:is1) is2\n  implicit none\n  type, extends(ibase) :: ichild\n    integer :: ic\n  end type ichild\ncontains\n  module subroutine irun(n)\n    integer :: n\n    type(ichild) :: x\n    x%ic = x%ig + ihidden + n\n  end subroutine irun\nend submodule is2\n",
+}
 DUP_HEADER = {
     "files": {
         "main.F90": "module fm\n#include \"fh.h\"\n#if F_WHICH == 1\n  integer :: f_one\n#endif\n#if F_WHICH == 2\n  integer :: f_two\n#endif\nend module fm\n",
